@@ -311,6 +311,7 @@ structure Srcv where
   recv : Ranges
   totalLen : Nat
   body : Option Bytes
+  szx : Nat                    -- lg_srcv->szx: the block size the body is tracked in
   noMoreSeen : Bool := false   -- lg_srcv->no_more_seen (a block without M arrived while others were missing)
   deriving Repr, DecidableEq
 
@@ -321,45 +322,59 @@ inductive SrcvOut where
   | undersized     -- 4.00
   deriving Repr, DecidableEq
 
-/-- One Block1 request datagram `(num, m, szx, payload, size1)` arriving at the server for an existing or new
-`lg_srcv` (`st = none`: not yet allocated).  Transcribes lines "if (length > block.chunk_size)" … "give_app_data"
-for Block1 without BERT (the `while` loop runs exactly once because `length ≤ chunk`). -/
-def srcvStep (cap : Nat) (junk : UInt8) (st : Option Srcv) (num m szx : Nat) (payload : Bytes) (size1 : Option Nat) :
+/-- `while (offset < saved_offset + length) { if (!check_if_received_block(num)) { if (!update_received_blocks(num))
+fail; update_data = 1; } num++; offset = num << (szx+4); }` — `cnt` iterations starting at block `n`.
+`none` = "Too many missing blocks". -/
+def recvLoop (cap : Nat) : Nat → Ranges → Nat → Bool → Option (Ranges × Bool)
+  | 0, rs, _, upd => some (rs, upd)
+  | cnt + 1, rs, n, upd =>
+    if checkIfReceived rs n then recvLoop cap cnt rs (n + 1) upd
+    else
+      match updateReceived cap rs n with
+      | (false, _) => none
+      | (true, r) => recvLoop cap cnt r (n + 1) true
+
+/-- the completion decision after the block has been recorded ("if (block.m || !check_all_blocks_in(…))" … "give_app_data") -/
+def srcvDecide (lg1 : Srcv) (m chunk : Nat) : Option Srcv × SrcvOut :=
+  let allIn := checkAllBlocksIn lg1.recv ((lg1.totalLen + chunk - 1) % 2 ^ 32 / chunk)
+  if m = 1 then
+    -- the body can only be complete once the block without More has been seen (fix 57e6aff)
+    if ¬ lg1.noMoreSeen ∨ ¬ allIn then (some lg1, .cont)            -- 2.31, ask for the next block
+    else (none, .deliver (lg1.body.getD []) lg1.totalLen)           -- give_app_data, lg_srcv freed by the caller
+  else if ¬ allIn then (some { lg1 with noMoreSeen := true }, .cont)   -- "Last chunk - but not all in": empty ACK
+  else (none, .deliver (lg1.body.getD []) lg1.totalLen)
+
+/-- record blocks `n … n+cnt-1` (units `2^(szxU+4)`), store `data` at `offset`, decide -/
+def srcvCore (cap : Nat) (junk : UInt8) (lg : Srcv) (n szxU m : Nat) (data : Bytes) (offset : Nat) :
     Option Srcv × SrcvOut :=
-  let chunk := 2 ^ (szx + 4)
-  let data := if payload.length > chunk then payload.take chunk else payload
+  let chunk := 2 ^ (szxU + 4)
+  match recvLoop cap ((data.length + chunk - 1) / chunk) lg.recv n false with
+  | none => (none, .fail)                       -- "Too many missing blocks", lg_srcv freed
+  | some (rec', updated) =>
+    if updated then
+      let tl := if lg.totalLen < offset + data.length then offset + data.length else lg.totalLen
+      match buildBody junk lg.body data offset tl with
+      | none => (some { lg with recv := rec', totalLen := tl, body := none }, .fail)     -- "Memory issue"
+      | some b => srcvDecide { lg with recv := rec', totalLen := tl, body := some b } m chunk
+    else srcvDecide { lg with recv := rec' } m chunk
+
+/-- One Block1 request datagram `(num, m, szx, payload, size1)` arriving at the server for an existing or new
+`lg_srcv` (`st = none`: not yet allocated) in COAP_BLOCK_SINGLE_BODY mode, Block1 without BERT/Q-Block;
+`maxBlk` = COAP_BLOCK_MAX_SIZE_GET(block_mode).  Transcribes "if (length > block.chunk_size)" … "give_app_data" of
+`coap_handle_request_put_block` including the unit conversion of fix 0d17941. -/
+def srcvStep (cap : Nat) (junk : UInt8) (maxBlk : Nat) (st : Option Srcv) (num m szx : Nat) (payload : Bytes)
+    (size1 : Option Nat) : Option Srcv × SrcvOut :=
+  let chunk0 := 2 ^ (szx + 4)
+  let data := if payload.length > chunk0 then payload.take chunk0 else payload
   if num = 0 ∧ m = 0 then (st, .deliver payload payload.length)    -- "Not blocked, or a single block": call_app_handler
-  else if ¬ (payload.length > chunk) ∧ m = 1 ∧ payload.length ≠ chunk then (st, .undersized)
+  else if ¬ (payload.length > chunk0) ∧ m = 1 ∧ payload.length ≠ chunk0 then (st, .undersized)
   else
-    let total := match size1 with | some t => t | none => 0
-    let offset := num * chunk
     let lg : Srcv := match st with
       | some s => s
-      | none => { recv := [], totalLen := total, body := none }
-    -- while (offset < saved_offset + length): one iteration when length > 0, none when length = 0
-    let upd : Option (Ranges × Bool) :=
-      if data.length = 0 then some (lg.recv, false)
-      else if checkIfReceived lg.recv num then some (lg.recv, false)
-      else match updateReceived cap lg.recv num with
-        | (false, _) => none
-        | (true, r) => some (r, true)
-    match upd with
-    | none => (none, .fail)                       -- "Too many missing blocks", lg_srcv freed
-    | some (rec', updated) =>
-      let lg1 : Srcv :=
-        if updated then
-          let tl := if lg.totalLen < offset + data.length then offset + data.length else lg.totalLen
-          { lg with recv := rec', totalLen := tl, body := buildBody junk lg.body data offset tl }
-        else { lg with recv := rec' }
-      if updated ∧ lg1.body.isNone then (some lg1, .fail)
-      else
-        let allIn := checkAllBlocksIn lg1.recv ((lg1.totalLen + chunk - 1) % 2 ^ 32 / chunk)
-        if m = 1 ∨ ¬ allIn then
-          if m = 1 then
-            -- the body can only be complete once the block without More has been seen
-            if ¬ lg1.noMoreSeen ∨ ¬ allIn then (some lg1, .cont)            -- 2.31, ask for the next block
-            else (none, .deliver (lg1.body.getD []) lg1.totalLen)           -- give_app_data
-          else (some { lg1 with noMoreSeen := true }, .cont)               -- "Last chunk - but not all in": empty ACK
-        else (none, .deliver (lg1.body.getD []) lg1.totalLen)
+      | none => { recv := [], totalLen := (match size1 with | some t => t | none => 0), body := none,
+                  szx := if num = 0 ∧ maxBlk ≠ 0 ∧ maxBlk < szx then maxBlk else szx }
+    -- a block that still uses a larger size covers several blocks of the tracked size
+    if szx > lg.szx then srcvCore cap junk lg ((num * 2 ^ (szx - lg.szx)) % 2 ^ 32) lg.szx m data (num * chunk0)
+    else srcvCore cap junk lg num szx m data (num * chunk0)
 
 end Coap.Block
